@@ -67,6 +67,8 @@ async fn execute(worker: &Worker, case: &Case) -> Execution {
 struct CaseOutcome {
     /// false when the call could not be observed at all (no evaluation is counted)
     observed: bool,
+    /// number of targets in the case (smaller cases make better witnesses)
+    size: usize,
     class: Option<String>,
     counters: Vec<(&'static str, u64)>,
     findings: Vec<Finding>,
@@ -91,6 +93,7 @@ async fn run_case(worker: &Worker, index: usize, case: &Case, want_sample: bool)
     if let Some(t) = exec.trouble {
         return CaseOutcome {
             observed: false,
+            size: cases::target_count(case),
             class: None,
             counters,
             findings: vec![],
@@ -144,6 +147,7 @@ async fn run_case(worker: &Worker, index: usize, case: &Case, want_sample: bool)
     };
     CaseOutcome {
         observed: true,
+        size: cases::target_count(case),
         class: cases::class_key(case),
         counters,
         findings,
@@ -178,7 +182,7 @@ fn worker_thread(
             if i >= cases.len() {
                 break;
             }
-            let small = cases::target_count(&cases[i]) <= 3;
+            let small = (1..=3).contains(&cases::target_count(&cases[i]));
             let o = run_case(&worker, i, &cases[i], small).await;
             out.lock().unwrap_or_else(|e| e.into_inner())[i] = Some(o);
         }
@@ -245,6 +249,7 @@ fn main() {
     let outcomes = out.into_inner().unwrap_or_else(|e| e.into_inner());
     let mut missing = 0u64;
     let mut troubled = 0u64;
+    let mut all_findings: Vec<(usize, Finding)> = vec![];
     for o in outcomes {
         let Some(o) = o else {
             missing += 1;
@@ -264,8 +269,27 @@ fn main() {
         if let Some(s) = o.sample {
             report.sample(s);
         }
-        for f in o.findings {
-            report.violation(&f.signature, &f.what, f.witness);
+        all_findings.extend(o.findings.into_iter().map(|f| (o.size, f)));
+    }
+    // per signature, the witness kept is the one of the smallest deviating case (the report keeps
+    // the first it is given); signatures are reported in a fixed order
+    let mut best: std::collections::BTreeMap<String, usize> = std::collections::BTreeMap::new();
+    for (i, (size, f)) in all_findings.iter().enumerate() {
+        match best.get(&f.signature) {
+            Some(&j) if all_findings[j].0 <= *size => {}
+            _ => {
+                best.insert(f.signature.clone(), i);
+            }
+        }
+    }
+    let first: Vec<usize> = best.values().copied().collect();
+    for &i in &first {
+        let f = &all_findings[i].1;
+        report.violation(&f.signature, &f.what, f.witness.clone());
+    }
+    for (i, (_, f)) in all_findings.iter().enumerate() {
+        if !first.contains(&i) {
+            report.violation(&f.signature, &f.what, Value::Null);
         }
     }
     if missing > 0 {
